@@ -4821,6 +4821,24 @@ class NameCheckVisitor(node_visitor.ReplacingNodeVisitor):
         value = self._visit_binop_internal(
             node.target, lhs, node.op, node.value, rhs, node, is_inplace=True
         )
+        if isinstance(node.target, ast.Name) and getattr(
+            self.scopes.current_scope(), "current_loop_scopes", None
+        ):
+            # An update carried around a loop: the body is only visited a few
+            # times, so the literals computed for those iterations are not all
+            # the values the variable takes.
+            value = unite_values(
+                *[
+                    (
+                        TypedValue(type(subval.val))
+                        if isinstance(subval, KnownValue)
+                        and isinstance(subval.val, (int, float, complex, str, bytes))
+                        and not isinstance(subval.val, bool)
+                        else subval
+                    )
+                    for subval in flatten_values(value)
+                ]
+            )
 
         with (
             qcore.override(self, "being_assigned", value),
